@@ -420,7 +420,7 @@ def place(spec, data, host, qubits, how):
         if how == "compose":
             host.compose(obj, qubits=qubits, inplace=True)
         else:
-            host.append(obj.to_gate(), qubits)
+            host.append(obj.to_instruction(), qubits)
         return
     host.append(obj, qubits)
 
@@ -675,7 +675,7 @@ def make_placements(rng, spec, w, resetful_hint, count, static_kind):
         if kind == "natural_none" and static_kind:
             pl["qubits_none"] = True                      # initialize(circuit, state) without a qubit list
         if spec["kind"] in ("unitary_fn", "isometry_fn"):
-            pl["how"] = "compose" if i % 2 else "to_gate"
+            pl["how"] = "compose" if i % 2 else "to_instruction"
         sfam = ["plus", "random_product", "entangled"][int(rng.integers(3))]
         ns = h - w
         if ns > 0:
